@@ -58,23 +58,45 @@ Definition code_lines (f : file) : file := filter (fun l => negb (comment_only l
 Section Fixer.
   Context (IGN : list N) (name : N -> list N).
 
-  (* show_error with add_ignores: Replacement([lineno], [indent + ignore, this_line]) *)
+  (* the stripped line starts with the ignore text: covers own_bare and own_tag c for every c *)
+  Definition own_any (l : line) : bool := prefix IGN (strip l).
+
+  (* show_error with add_ignores (after the repair repo_fixes/C16-add-ignore-trailing-fallback):
+     a comment line above the reported line, unless that would separate another ignore comment from
+     the line, split a backslash continuation, or become a file-level ignore — then a trailing comment *)
+  Definition use_trailing (f : file) (ln : nat) : bool :=
+    let this_line := line_at f (ln - 1) in
+    let prev_line := if 2 <=? ln then line_at f (ln - 2) else [] in
+    negb (ends_backslash (rstrip this_line))
+    && (own_any prev_line || ends_backslash (rstrip prev_line)
+        || (Nat.eqb (indentation this_line) 0 && forallb starts_hash (firstn (ln - 1) f))).
+
+  Definition trail_line (l : line) (c : N) : line := rstrip l ++ [space_char; space_char] ++ tag IGN name c.
+
   Definition add_ignore_repl (f : file) (ln : nat) (c : N) : replacement :=
     let this_line := line_at f (ln - 1) in
-    mk_repl [ln] (Some [comment_line IGN name (indentation this_line) (Some c); this_line]).
+    if use_trailing f ln
+    then mk_repl [ln] (Some [trail_line this_line c])
+    else mk_repl [ln] (Some [comment_line IGN name (indentation this_line) (Some c); this_line]).
 
-  Definition first_lined (out : list diag) : option (nat * N) :=
-    match find (fun d => match d_line d with Some _ => true | None => false end) out with
-    | Some d => match d_line d with Some ln => Some (ln, d_code d) | None => None end
-    | None => None
-    end.
+  Definition first_lined (out : list diag) : option diag :=
+    find (fun d => match d_line d with Some _ => true | None => false end) out.
 
-  (* one run with add_ignores=True followed by _apply_changes: only the first
-     replacement of the file is applied; None: no replacement was proposed *)
+  (* one run with add_ignores=True followed by _apply_changes: only the first replacement of the
+     file is applied.  None: nothing is applied (no diagnostic with a line; or the first one does not
+     obey ignore comments — unused_ignore / bare_ignore reports — whose own replacement, built by
+     show_errors_for_unused_ignores, is outside this model) *)
   Definition fix_step (st : settings) (U B : N) (f : file) (raw : list diag) : option (file * list diag) :=
     match first_lined (emit IGN name st f U B raw) with
     | None => None
-    | Some (ln, c) => Some (apply_changes [add_ignore_repl f ln c] f, map (shift_diag ln) raw)
+    | Some d =>
+        match d_line d with
+        | None => None
+        | Some ln =>
+            if negb (d_obey d) then None
+            else Some (apply_changes [add_ignore_repl f ln (d_code d)] f,
+                       if use_trailing f ln then raw else map (shift_diag ln) raw)
+        end
     end.
 
   (* repeat until no replacement is proposed; None: out of fuel *)
@@ -88,7 +110,4 @@ Section Fixer.
         | S k => iterate k st U B f' raw'
         end
     end.
-
-  (* the stripped line starts with the ignore text: covers own_bare and own_tag c for every c *)
-  Definition own_any (l : line) : bool := prefix IGN (strip l).
 End Fixer.
